@@ -44,8 +44,9 @@ void FieldOperatorContainer::computeAll()
 
 const CreationOperator& FieldOperatorContainer::getCreationOperator(ParticleIndex in) const
 {
-    if (IndexInfo.checkIndex(in)){
-        return *mapCreationOperators[in];
+    std::map <ParticleIndex, CreationOperator*>::const_iterator it = mapCreationOperators.find(in);
+    if (IndexInfo.checkIndex(in) && it != mapCreationOperators.end() && it->second){
+        return *(it->second);
         }
     else
         throw (std::logic_error("No creation operator found."));
@@ -53,8 +54,9 @@ const CreationOperator& FieldOperatorContainer::getCreationOperator(ParticleInde
 
 const AnnihilationOperator& FieldOperatorContainer::getAnnihilationOperator(ParticleIndex in) const
 {
-    if (IndexInfo.checkIndex(in)){
-        return *mapAnnihilationOperators[in];
+    std::map <ParticleIndex, AnnihilationOperator*>::const_iterator it = mapAnnihilationOperators.find(in);
+    if (IndexInfo.checkIndex(in) && it != mapAnnihilationOperators.end() && it->second){
+        return *(it->second);
         }
     else
         throw (std::logic_error("No annihilation operator found."));
